@@ -8,9 +8,47 @@ class C05(ProgProp):
     aspects = ("lines",)
     rule = ("case = (bytecode version, program) with drawn line gaps (0..400 blank lines, multi-line expressions, "
             "decorators) / stdlib sample; oracle: list(opc.findlinestarts(code)) == list(dis.findlinestarts) of the "
-            "producing CPython and starts_line of every instruction (dup_lines=False) == dis's; non-trivial = "
+            "producing CPython and starts_line of every instruction (dup_lines=False) == dis's; also drawn line tables "
+            "(any lnotab byte pairs; well-formed 3.10 range tables; 3.11+ location tables of every entry form) attached "
+            "to native code objects, and - inside workers of hosts 3.8-3.13 - native code objects, their "
+            "codeType2Portable copies and their marshal round trip against the host's dis; non-trivial = "
             "line table with a |delta| >= 128 or a decreasing line; distinct = (version, line starts)")
     assumptions = ["CPython's dis.findlinestarts is ground truth; 3.13 starts_line is a bool: line_number is used"]
+
+    def strategy(self, ctx):
+        from hypothesis import strategies as st
+        from vf.gen import prog as gp
+        from vf.pool import HOSTS
+        base = super().strategy(ctx)
+
+        @st.composite
+        def host_case(draw):
+            h = draw(st.sampled_from(HOSTS))
+            return {"k": "host", "host": h, "src": draw(gp.programs(h, size=draw(st.integers(2, 4)), bulk=False))}
+        return st.one_of(base, base, base, base, host_case())
+
+    def judge(self, case, ctx):
+        if case.get("k") != "host":
+            return super().judge(case, ctx)
+        from vf.pool import HOSTS
+        from vf.run import Result
+        res = Result()
+        h = case.get("host")
+        if h not in HOSTS or not isinstance(case.get("src"), str):
+            res.reject = "malformed-case"
+            return res
+        r = ctx.pool.host(h).call("x_lines_host", src=case["src"])
+        if "reject" in r:
+            res.reject = "compiler-rejects:" + r["reject"].split(":")[0]
+            return res
+        for sig, msg in r["fails"]:
+            res.fail("C05|host|%s|%s" % (h, sig), "host %s: %s" % (h, msg))
+        res.evals = max(1, r["codes"])
+        res.classes = ["source:host-native", "host:" + h]
+        res.nontrivial = True
+        res.key = [h, case["src"]]
+        res.sample = {"host": h, "kind": "native code objects on the host + their portable copies", "source_head": case["src"][:200]}
+        return res
 
     def classify(self, case, ref, x, c, res):
         keys = []
